@@ -33,6 +33,20 @@ def gen_cases(tier):
         if i % 12 == 1:
             # a dividend guarantee coupling two inputs shared with the divisor; the assumptions couple them with MIXED signs, so that no
             # bound on their sum follows (tactics 1 / 3 have to check the sign of every coefficient, not only the diagonal)
+            if rng.random() < 0.45:
+                # ... or two OUTPUTS shared with the divisor enter the dividend's guarantee with coefficients of different magnitude (a x + b y),
+                # and the divisor bounds the same combination, a multiple of it, or the one with the ratio inverted (b x + a y): tactic 3
+                # replaces a x + b y by one variable and has to substitute x = (_ - b y) / a in the context, not x = (_ - (a/b) y)
+                a_, b_ = rng.choice([(2, 1), (1, 2), (3, 1), (1, 3), (3, 2), (2, 3)])
+                m = rng.random()
+                da, db = (a_, b_) if m < 0.35 else ((2 * a_, 2 * b_) if m < 0.55 else (b_, a_))
+                top = {"inv": [], "outv": ["x", "y", "o"], "a": [], "g": [({"o": 1, "x": a_, "y": b_}, rng.randint(6, 12))]}
+                div = {"inv": ["k"], "outv": ["x", "y"], "a": [], "g": [({"x": da, "y": db, "k": -1}, 0)]}
+                if rng.random() < 0.4:
+                    div["g"].append(({"x": -da, "y": -db, "k": 1}, rng.randint(0, 3)))       # bounded from both sides
+                cfgs = [([], True, None), ([], False, None), ([], True, [3]), ([], False, [3, 1]), ([], True, [1, 2, 3])]
+                cases.append({"id": i + 1, "raw": {"kind": "random", "top": top, "div": div}, "cfgs": cfgs})
+                continue
             k, c1_, c2_ = rng.choice([2, 3]), rng.randint(0, 2), rng.randint(0, 2)
             rows = [({"i1": 1, "i2": -1}, c1_), ({"i1": -k, "i2": 1}, c2_)]
             if rng.random() < 0.5:
